@@ -177,7 +177,8 @@ class C16(Prop):
             value = [Fraction(rng.randint(10, 99)) for _ in range(k)]
         else:
             value = Fraction(rng.randint(10, 99))
-        return {"kind": "setpos", "coords": coords, "data": data, "query": query, "value": value}
+        return {"kind": "setpos", "coords": coords, "data": data, "query": query, "value": value,
+                "layout": rng.choice(["plain", "plain", "coords-reversed", "transposed"])}
 
     def cases(self, rng, tier):
         n = {"quick": 1, "thorough": 20}[tier]
@@ -240,18 +241,26 @@ class C16(Prop):
         shape = [len(x) for x in c["coords"]]
         dims = ["time", "frequency", "channel"][: len(shape)]
         data = np.array([float(x) for x in c["data"]], dtype=np.float64).reshape(shape)
-        arr = xr.DataArray(data.copy(), dims=dims, coords={d: [float(x) for x in cs] for d, cs in zip(dims, c["coords"])})
+        cdict = {d: [float(x) for x in cs] for d, cs in zip(dims, c["coords"])}
+        layout = c.get("layout", "plain")
+        if layout == "coords-reversed":  # the order in which coordinates are listed is not the order of the axes
+            arr = xr.DataArray(data.copy(), dims=dims, coords=dict(reversed(list(cdict.items()))))
+        elif layout == "transposed":  # built the other way round, then transposed: axis numbers and coordinate order differ
+            rd = list(reversed(dims))
+            arr = xr.DataArray(np.ascontiguousarray(data.transpose(*reversed(range(len(dims))))), dims=rd, coords={d: cdict[d] for d in rd}).transpose(*dims)
+        else:
+            arr = xr.DataArray(data.copy(), dims=dims, coords=cdict)
         q = {d: float(v) for d, v in zip(dims, c["query"]) if v is not None}
         val = c["value"]
         val = tuple(float(x) for x in val) if isinstance(val, list) else float(val)
         r = guarded(O.set_value_at_pos, arr, val, **q)
         if r[0] != "ok":
-            return {"res": ["err", r[1]], "msg": r[2], "after_error": [Fraction(float(x)) for x in arr.data.reshape(-1)]}
+            return {"res": ["err", r[1]], "msg": r[2], "after_error": [Fraction(float(x)) for x in arr.transpose(*dims).data.reshape(-1)]}
         out = r[1]
         return {
             "res": ["ok"],
-            "data": [Fraction(float(x)) for x in out.data.reshape(-1)],
-            "shape": list(out.shape),
+            "data": [Fraction(float(x)) for x in out.transpose(*dims).data.reshape(-1)],
+            "shape": list(out.transpose(*dims).shape),
             "coords_same": all(list(out.coords[d].data) == [float(x) for x in cs] for d, cs in zip(dims, c["coords"])),
         }
 
@@ -416,6 +425,7 @@ class C16(Prop):
         elif k == "setpos":
             t.append("setpos:block" if isinstance(c["value"], list) else "setpos:scalar")
             t.append(f"setpos:{len(c['coords'])}d")
+            t.append("setpos-layout:" + c.get("layout", "plain"))
         return t
 
 
